@@ -786,8 +786,15 @@ class C06(Prop):
         for i in range(n):
             docs = [g.filter_doc(False, 0) for _ in range(r.randint(1, 3))]
             docs.append(('a', [('o', [(b'a', ('n', 1.0)), (b'b', ('s', b'x'))]), ('o', [(b'a', ('n', 7.0))]), ('n', 3.0)]))
+            if r.random() < 0.6:
+                # documents decoded with UseNumber holding different numbers: per-node conversion state would mix them up
+                for _ in range(r.randint(2, 3)):
+                    docs.append(('a', [('o', [(b'a', ('j', str(r.choice([0, 1, 3, 6, 8, 10, 12, 100])))), (b'b', ('j', str(r.randint(0, 9))))])
+                                       for _ in range(r.randint(2, 4))]))
             ops = []
             picks = r.sample(CONC_CORPUS, r.randint(2, 6))
+            if r.random() < 0.6:
+                picks.append(r.choice([(b'$[?(@.a > 7)].a', [], []), (b'$[?(@.a <= 6)].b', [], []), (b'$[?(@.a >= $[0].a)].a', [], []), (b'$[?(@.b < 5 && @.a > 2)]', [], [])]))
             for p, f, a in picks:
                 ops.append({'op': 'parse', 'path_hex': hx(p), 'filters': f, 'aggs': a, 'acc': r.random() < 0.2})
             for _ in range(r.randint(0, 3)):
@@ -2206,7 +2213,7 @@ class C19(Prop):
 class C20(EvalProp):
     id = 'C20'
     what = 'behaviour on non-JSON Go values'
-    rule = ('generator documents with a random subset of leaves replaced by values of 27 non-JSON Go types (ints, structs, '
+    rule = ('generator documents with a random subset of leaves replaced by values of 28 non-JSON Go types (ints, structs, '
             'struct{}, typed maps/slices, pointers, typed nils, funcs, channels, arrays, NaN, time.Time, error, Accessor), all '
             'parsable generated paths incl. existence tests, literal/ordering/regex/deep-equal comparisons and functions; '
             'results, errors (found type) and call logs compared with the model; any panic / undocumented error is a '
